@@ -13,25 +13,26 @@ import (
 )
 
 type UnitResult struct {
-	Func        string        `json:"func"`
-	Key         string        `json:"key"`
-	SSAHash     string        `json:"ssa_hash"`
-	Obligations []*OblResult  `json:"obligations"`
-	Inlined     []string      `json:"inlined,omitempty"`
-	SpecsUsed   []string      `json:"contracts_and_externals_used,omitempty"`
-	Notes       []string      `json:"notes,omitempty"`
-	Unsupported []string      `json:"unsupported,omitempty"`
-	DroppedAuto []string      `json:"dropped_auto_invariants,omitempty"`
-	KeptAuto    []string      `json:"kept_auto_invariants,omitempty"`
-	Vacuity     string        `json:"vacuity"`
-	UnreachableReturns []string `json:"unreachable_return_points,omitempty"`
-	Trusted     bool          `json:"trusted,omitempty"`
-	SolverMs    int64         `json:"solver_ms"`
-	WallMs      int64         `json:"wall_ms"`
-	ScriptLines int           `json:"script_lines"`
-	LocalTypes  map[string]string `json:"-"`
-	AllLocals   map[string]string `json:"-"`
-	unit        *Unit
+	Func               string            `json:"func"`
+	Key                string            `json:"key"`
+	SSAHash            string            `json:"ssa_hash"`
+	Obligations        []*OblResult      `json:"obligations"`
+	Inlined            []string          `json:"inlined,omitempty"`
+	SpecsUsed          []string          `json:"contracts_and_externals_used,omitempty"`
+	Notes              []string          `json:"notes,omitempty"`
+	Unsupported        []string          `json:"unsupported,omitempty"`
+	DroppedAuto        []string          `json:"dropped_auto_invariants,omitempty"`
+	KeptAuto           []string          `json:"kept_auto_invariants,omitempty"`
+	Vacuity            string            `json:"vacuity"`
+	UnreachableReturns []string          `json:"unreachable_return_points,omitempty"`
+	DeadPosts          []string          `json:"postconditions_with_unsatisfiable_antecedent,omitempty"`
+	Trusted            bool              `json:"trusted,omitempty"`
+	SolverMs           int64             `json:"solver_ms"`
+	WallMs             int64             `json:"wall_ms"`
+	ScriptLines        int               `json:"script_lines"`
+	LocalTypes         map[string]string `json:"-"`
+	AllLocals          map[string]string `json:"-"`
+	unit               *Unit
 }
 
 type OblResult struct {
@@ -88,6 +89,7 @@ func (eng *Engine) VerifyFunction(fn *ssa.Function, key string, sp *FuncSpec) *U
 	if len(u.reach) > 1 {
 		res.UnreachableReturns = u.unreachableReturns()
 	}
+	res.DeadPosts = u.deadPostconditions()
 	for _, o := range u.obls {
 		if o.Auto {
 			continue
@@ -237,6 +239,11 @@ func (u *Unit) build() {
 					continue
 				}
 				u.oblige(fr, "post", u.fn.Pos(), en.Text, r.pc, t)
+				if bin, ok := en.E.(SBinary); ok && bin.Op == "==>" {
+					if at, err := env.evalHyp(bin.X); err == nil {
+						u.antecedents = append(u.antecedents, antecedentCheck{en.Text, u.c.Len(), And(r.pc, at)})
+					}
+				}
 			}
 		}
 	}
@@ -468,6 +475,66 @@ func (u *Unit) unreachableReturns() []string {
 			if r.Status == "unsat" {
 				mu.Lock()
 				out = append(out, rc.Name)
+				mu.Unlock()
+			}
+		}()
+	}
+	wg.Wait()
+	sort.Strings(out)
+	return out
+}
+
+// deadPostconditions returns the `A ==> B` postconditions whose antecedent A cannot hold at ANY return point
+// under the assumed contracts: such a clause says nothing (it is discharged vacuously everywhere). It is a
+// warning, not a verdict; it exposed an external contract that made a buffer look permanently empty.
+func (u *Unit) deadPostconditions() []string {
+	byClause := map[string][]antecedentCheck{}
+	var order []string
+	for _, a := range u.antecedents {
+		if _, seen := byClause[a.Clause]; !seen {
+			order = append(order, a.Clause)
+		}
+		byClause[a.Clause] = append(byClause[a.Clause], a)
+	}
+	var out []string
+	var mu sync.Mutex
+	var wg sync.WaitGroup
+	sem := make(chan struct{}, 6)
+	for _, cl := range order {
+		cl := cl
+		wg.Add(1)
+		go func() {
+			defer wg.Done()
+			sem <- struct{}{}
+			defer func() { <-sem }()
+			alive := false
+			for _, a := range byClause[cl] {
+				if a.Cond.S == "false" {
+					continue
+				}
+				var b strings.Builder
+				for _, l := range u.c.lines[:a.Prefix] {
+					b.WriteString(l)
+					b.WriteByte('\n')
+				}
+				for _, cd := range u.cands {
+					if flagDeclared(u.c.lines[:a.Prefix], cd.Flag) {
+						if u.finalActive[cd.Flag] {
+							fmt.Fprintf(&b, "(assert %s)\n", cd.Flag)
+						} else {
+							fmt.Fprintf(&b, "(assert (not %s))\n", cd.Flag)
+						}
+					}
+				}
+				fmt.Fprintf(&b, "(assert %s)\n", a.Cond.S)
+				if r := Solve(b.String(), nil, 2, false); r.Status != "unsat" {
+					alive = true
+					break
+				}
+			}
+			if !alive {
+				mu.Lock()
+				out = append(out, cl)
 				mu.Unlock()
 			}
 		}()
